@@ -88,6 +88,14 @@ Definition program_run (leaf : option fc) (s : series) (ups : list (Z * list oq)
   | Err => Err
   end.
 
+(* a history with TWO predict calls: fit ; the first j updates ; predict(hpre) ; the other updates ;
+   predict(h).  predict is a function of the state (and of the horizon of THIS call) alone - it
+   leaves no trace in the state, in particular the horizon of the earlier call is not part of it -
+   so the earlier call returns the index of `hpre` from the cutoff after j updates and the final
+   call is `program_run` unchanged (C03_predict_index holds at every state for every horizon). *)
+Definition earlier_index (s : series) (ups : list (Z * list oq)) (j : nat) (hpre : horizon) : list Z :=
+  pred_index (run_state s (firstn j ups)) hpre.
+
 (* shifting the time axis by k *)
 Definition shift_series (k : Z) (s : series) : series := {| t0 := t0 s + k; ys := ys s |}.
 Definition shift_batch (k : Z) (b : Z * list oq) : Z * list oq := (fst b + k, snd b).
